@@ -243,3 +243,34 @@ def sign_uses(fnode, name):
             else:
                 n_other += 1
     return n_abs, n_other
+
+
+def normalise_test(test, polarity=True):
+    """(test, polarity) with leading `not`s stripped and `!=` rewritten as a negated `==` (so that `if not c: B else: A`
+    reads the same as `if c: A else: B`)"""
+    while isinstance(test, ast.UnaryOp) and isinstance(test.op, ast.Not):
+        test, polarity = test.operand, not polarity
+    if isinstance(test, ast.Compare) and len(test.ops) == 1 and isinstance(test.ops[0], ast.NotEq):
+        t2 = ast.Compare(left=test.left, ops=[ast.Eq()], comparators=test.comparators)
+        ast.copy_location(t2, test)
+        return t2, not polarity
+    return test, polarity
+
+
+def branch_conditions(node, stop):
+    """conditions that hold at `node`: [(normalised test, polarity)] for every enclosing if (innermost first); works for
+    df.effective_return stand-ins through their `_origin`"""
+    node = getattr(node, "_origin", node)
+    out = []
+    child, p = node, getattr(node, "_parent", None)
+    while p is not None and p is not stop:
+        if isinstance(p, ast.If):
+            in_body = any(x is child for x in p.body)
+            in_else = any(x is child for x in p.orelse)
+            if in_body or in_else:
+                out.append(normalise_test(p.test, in_body))
+        elif isinstance(p, ast.IfExp):
+            if child is p.body or child is p.orelse:
+                out.append(normalise_test(p.test, child is p.body))
+        child, p = p, getattr(p, "_parent", None)
+    return out
